@@ -56,7 +56,7 @@ NOW_ZONES = ["UTC", "America/New_York", "Asia/Kolkata", "Asia/Kathmandu", "Austr
              "Pacific/Pago_Pago", "Europe/London", "America/St_Johns", "+0530", "-1200", "EST", "UTC+05:45", "GMT+1"]
 NOW_ZONES_T = NOW_ZONES + ["Asia/Tokyo", "Europe/Moscow", "America/Sao_Paulo", "Africa/Cairo", "Pacific/Auckland", "Pacific/Chatham",
                            "America/Los_Angeles", "Asia/Tehran", "Australia/Adelaide", "Atlantic/Azores", "America/Caracas",
-                           "Asia/Yangon", "+1400", "UTC+05:45", "CET", "JST", "Asia/Dhaka", "Europe/Paris", "America/Denver",
+                           "Asia/Yangon", "+1400", "UTC+05:45", "JST", "Asia/Dhaka", "Europe/Paris", "America/Denver",
                            "America/Anchorage", "Pacific/Honolulu", "Asia/Kabul", "Asia/Hong_Kong", "Africa/Johannesburg",
                            "America/Argentina/Buenos_Aires", "Atlantic/Reykjavik", "Asia/Dubai", "Europe/Istanbul"]
 NOW_INSTANTS = [datetime(2021, 1, 15, 12, 0, 0, 250000), datetime(2024, 2, 29, 23, 30, 0, 0), datetime(2019, 7, 1, 0, 0, 1, 0),
